@@ -41,3 +41,46 @@ def calls_in(node: ast.AST, text: str) -> list[ast.Call]:
 
 def stmt_calls(node: ast.AST, attr: str) -> list[ast.Call]:
     return [n for n in ast.walk(node) if isinstance(n, ast.Call) and isinstance(n.func, ast.Attribute) and n.func.attr == attr]
+
+
+def check_unravel_2d(m: Model, r, rid: str) -> None:
+    """Accumulator discipline of utils.unravel_2d: a bare outer key stores None ('all') unconditionally; id sets are only created
+    for keys not yet present and only extended when the entry is not None.  (Shared by C10 and C20.)"""
+    from .model import AnalysisError
+    u2 = m.require_function("gallia.utils.unravel_2d")
+    cands = [ast.unparse(n.target if isinstance(n, ast.AnnAssign) else n.targets[0]) for n in ast.walk(u2.node)
+             if isinstance(n, (ast.Assign, ast.AnnAssign)) and isinstance(n.value, ast.Dict) and not n.value.keys]
+    if len(cands) != 1:
+        raise AnalysisError(f"{u2.qualname}: accumulator dict not found ({cands})")
+    mp = cands[0]
+    par: dict[int, ast.AST] = {}
+    for p_ in ast.walk(u2.node):
+        for c in ast.iter_child_nodes(p_):
+            par[id(c)] = p_
+
+    def guards(n: ast.AST) -> list[tuple[str, str]]:
+        out = []
+        cur, prev = par.get(id(n)), n
+        while cur is not None:
+            if isinstance(cur, ast.If):
+                out.append(("then" if prev in cur.body else "else", ast.unparse(cur.test)))
+            prev, cur = cur, par.get(id(cur))
+        return out
+
+    stores = [n for n in ast.walk(u2.node) if isinstance(n, ast.Assign) and isinstance(n.targets[0], ast.Subscript) and ast.unparse(n.targets[0].value) == mp]
+    none_stores = [s for s in stores if isinstance(s.value, ast.Constant) and s.value.value is None]
+    helper_calls = [ast.unparse(n) for n in ast.walk(u2.node) if isinstance(n, ast.Call) and isinstance(n.func, ast.Attribute) and ast.unparse(n.func.value) == mp
+                    and n.func.attr in ("setdefault", "get", "pop", "update")]
+    ok_none = len(none_stores) == 1 and not helper_calls and any(side == "else" and "level_delimiter in" in t for side, t in guards(none_stores[0])) and \
+        not any(side == "then" and ("not in" in t or "is None" in t) for side, t in guards(none_stores[0]))
+    r.check(ok_none, rid, f"{u2.qualname}#bare-key-means-all",
+            f"a bare outer key must store None ('all') with a plain, unconditional assignment (None stores: {[ast.unparse(s) for s in none_stores]}, "
+            f"dict helper calls: {helper_calls}): '7:1,3-5 7' and '0x02 0x01-0x03:0x27' both denote all of the bare key", loc=u2.loc)
+    other = [s for s in stores if s not in none_stores]
+    r.check(bool(other) and all(any(side == "then" and t.replace(" ", "") == f"xnotin{mp}" for side, t in guards(s)) for s in other), rid,
+            f"{u2.qualname}#listing-never-replaces-all",
+            f"an id set may only be created for a key that is not in the map yet ({[ast.unparse(s) for s in other]}): otherwise a later `key:ids` entry "
+            "replaces an earlier whole-key entry", loc=u2.loc)
+    muts = [n for n in ast.walk(u2.node) if isinstance(n, ast.Call) and isinstance(n.func, ast.Attribute) and n.func.attr in ("add", "update") and ast.unparse(n.func.value) != mp]
+    r.check(bool(muts) and all(any(side == "then" and "is not None" in t for side, t in guards(x)) for x in muts), rid, f"{u2.qualname}#extend-only-sets",
+            "ids may only be added to an entry that is tested to be not None", loc=u2.loc)
